@@ -126,7 +126,14 @@ class BaseSQLURLTable(BaseURLTable):
 
                 added_urls = get_inserted_urls()
 
-            hostnames = (URLInfo.parse(url).hostname for url in added_urls)
+            # Only the hosts of start URLs: the span hosts filter of a
+            # resumed run is built from this table.
+            start_urls = frozenset(
+                url for url, url_properties, url_data in new_urls
+                if not url_properties or not url_properties.parent_url
+            )
+            hostnames = (URLInfo.parse(url).hostname for url in added_urls
+                         if url in start_urls)
             session.execute(
                 insert(Hostname).prefix_with('OR IGNORE'),
                 [{'hostname': hostname} for hostname in hostnames]
